@@ -80,7 +80,7 @@ func c05Template() c05Tpl {
 			return types.Request{Principal: c05E, Action: c05A, Resource: get(v, "r").(types.EntityUID), Context: baseCtx}
 		}
 	case 2: // action
-		t.vars, t.lists = []types.String{"act"}, [][]types.Value{[]types.Value{c05A, c05B}[:n1]}
+		t.vars, t.lists = []types.String{"act"}, [][]types.Value{[]types.Value{c05A, c05B, types.NewEntityUID("Action", "third")}[:n1]}
 		t.req = Request{Principal: c05E, Action: Variable("act"), Resource: c05P, Context: baseCtx}
 		t.subst = func(v map[types.String]types.Value) types.Request {
 			return types.Request{Principal: c05E, Action: get(v, "act").(types.EntityUID), Resource: c05P, Context: baseCtx}
